@@ -247,7 +247,48 @@ Proof.
 Qed.
 
 Definition refresh_at (sync : bool) (s : st) (m : imap) (l : cls) (id : Z) : imap :=
-  if sync then sync_at s m l id else expire_at m l id.
+  if sync then sync_up s m l id else expire_up m l id.
+
+Lemma sync_list_spec : forall s ls id m a,
+  sync_list s m ls id a id = if memc a ls then mkslot (Some (val_of s a id)) (en (m a id)) else m a id.
+Proof.
+  induction ls as [|b ls IH]; intros id m a; cbn [sync_list]; [reflexivity|].
+  rewrite IH. unfold sync_at. rewrite iupd_same. unfold memc. cbn [existsb]. fold (memc a ls).
+  destruct (cls_eqb a b) eqn:E; cbn [orb]; [|reflexivity].
+  apply cls_eqb_eq in E. subst b. cbn [en]. destruct (memc a ls); reflexivity.
+Qed.
+
+Lemma expire_list_spec : forall ls id m a,
+  expire_list m ls id a id =
+  if memc a ls then match ci (m a id) with None => m a id | Some _ => mkslot None NAbsent end else m a id.
+Proof.
+  induction ls as [|b ls IH]; intros id m a; cbn [expire_list]; [reflexivity|].
+  rewrite IH. unfold memc. cbn [existsb]. fold (memc a ls). unfold expire_at.
+  destruct (cls_eqb a b) eqn:E; cbn [orb].
+  - apply cls_eqb_eq in E. subst b. destruct (ci (m a id)) eqn:C.
+    + rewrite iupd_same, cls_eqb_refl. cbn [ci]. destruct (memc a ls); reflexivity.
+    + rewrite C. destruct (memc a ls); reflexivity.
+  - destruct (ci (m b id)); [rewrite iupd_same, E|]; reflexivity.
+Qed.
+
+(* after the call every level of chain l is coherent, provided its identity-map entry was *)
+Lemma refresh_at_fresh : forall sync s m l id a, In a (chain l) -> efresh s a id (m a id) ->
+  cfresh s a id (refresh_at sync s m l id a id) /\ efresh s a id (refresh_at sync s m l id a id).
+Proof.
+  intros sync s m l id a Ha He. apply memc_In in Ha. destruct sync; cbn [refresh_at].
+  - unfold sync_up. rewrite sync_list_spec, Ha. split; [right; reflexivity|exact He].
+  - unfold expire_up. rewrite expire_list_spec, Ha. destruct (ci (m a id)) eqn:C.
+    + split; [left; reflexivity|intros v E; discriminate E].
+    + split; [left; exact C|exact He].
+Qed.
+Lemma refresh_at_other : forall sync s m l id a, memc a (chain l) = false -> refresh_at sync s m l id a id = m a id.
+Proof.
+  intros sync s m l id a Ha. destruct sync; cbn [refresh_at].
+  - unfold sync_up. rewrite sync_list_spec, Ha. reflexivity.
+  - unfold expire_up. rewrite expire_list_spec, Ha. reflexivity.
+Qed.
+
+Definition refresh_op' := refresh_op.
 
 Lemma istep_refresh : forall auto sync S e id l ob, get_obj (db S) e id = inr ob -> In l (chain (ocls ob)) ->
   istep auto S (refresh_op sync e id l) =
@@ -262,7 +303,16 @@ Lemma istep_get : forall auto S e id ob, get_obj (db S) e id = inr ob ->
   (mkist (db S) (fst (iview (db S) e (ocls ob) id (im S))), RObj (snd (iview (db S) e (ocls ob) id (im S)))).
 Proof. intros. cbn [istep]. rewrite H. destruct (iview _ _ _ _ _). reflexivity. Qed.
 
-(* the level the call was made on is refreshed, through every entry class *)
+Lemma chain_sub : forall k l a, In l (chain k) -> In a (chain l) -> In a (chain k).
+Proof.
+  intros k l a Hl Ha. destruct k; cbn in Hl; repeat (destruct Hl as [<-|Hl]; [cbn in Ha |- *; tauto|]); destruct Hl.
+Qed.
+Lemma leaf_not_in_ancestor : forall k l, In l (chain k) -> l <> k -> memc k (chain l) = false.
+Proof.
+  intros k l Hl Hne. destruct k; cbn in Hl; repeat (destruct Hl as [<-|Hl]; [try reflexivity; contradiction|]); destruct Hl.
+Qed.
+
+(* the level the call was made on is refreshed, through every entry class -- whatever the identity map holds *)
 Theorem refresh_own_level : forall auto sync S id k e l e', ireachable auto S -> In (id, k) (born (db S)) ->
   In e (chain k) -> In l (chain k) -> In e' (chain k) ->
   let S' := fst (istep auto S (refresh_op sync e id l)) in
@@ -284,89 +334,70 @@ Proof.
   rewrite HS. cbn [db im].
   set (m1 := iget (db S) e k id (im S)).
   destruct (iget_leaf (db S) e k id (im S) He) as [Lk [vk Lv]]. fold m1 in Lk, Lv.
+  assert (Ll : memc l (chain l) = true) by apply memc_self.
   destruct sync; cbn [refresh_at].
-  - (* sync *)
+  - (* sync: the entries stay, the leaf is still in the identity map *)
     apply view_shows_leaf_same; [exact Hl| |].
-    + unfold sync_at. rewrite iupd_same. destruct (cls_eqb k l) eqn:E; [|exact Lk].
-      apply cls_eqb_eq in E. subst l. cbn. exact Lk.
-    + unfold sync_at. rewrite iupd_same, cls_eqb_refl. right. reflexivity.
+    + unfold sync_up. rewrite sync_list_spec. destruct (memc k (chain l)); exact Lk.
+    + unfold sync_up. rewrite sync_list_spec, Ll. right. reflexivity.
   - (* expire *)
-    unfold expire_at. destruct (ci (m1 l id)) eqn:Cl.
-    + destruct (cls_dec l k) as [->|Hne].
-      * (* the leaf: the next get makes a new one *)
-        apply view_shows; [exact Hl| |].
-        -- intros v E. rewrite iupd_same, cls_eqb_refl in E. discriminate E.
-        -- left. rewrite iupd_same, cls_eqb_refl. reflexivity.
-      * apply view_shows_leaf_same; [exact Hl| |].
-        -- rewrite iupd_same. apply cls_eqb_neq in Hne. destruct (cls_eqb k l) eqn:E; [|exact Lk].
-           apply cls_eqb_eq in E. subst l. apply cls_eqb_neq in Hne. contradiction.
-        -- left. rewrite iupd_same, cls_eqb_refl. reflexivity.
-    + apply view_shows_leaf_same; [exact Hl|exact Lk|]. left. exact Cl.
+    destruct (cls_dec l k) as [->|Hne].
+    + (* through the leaf: the next get makes a new leaf, which loads its row *)
+      apply view_shows; [exact Hl| |]; unfold expire_up; rewrite expire_list_spec, Ll, Lv.
+      * intros v E. discriminate E.
+      * left. reflexivity.
+    + apply view_shows_leaf_same; [exact Hl| |]; unfold expire_up; rewrite expire_list_spec.
+      * rewrite (leaf_not_in_ancestor k l Hl Hne). exact Lk.
+      * rewrite Ll. destruct (ci (m1 l id)) eqn:C; left; [reflexivity|exact C].
 Qed.
 
-(* ------------------------------------------------------------------ the call on every level *)
-
-Lemma refresh_levels : forall auto sync e id k s ls m done, In e (chain k) ->
-  (forall S0, db S0 = s -> exists ob, get_obj (db S0) e id = inr ob /\ ocls ob = k) ->
-  (forall l, In l ls -> In l (chain k)) ->
-  (forall l, In l (chain k) -> efresh s l id (m l id)) ->
-  (forall l, In l done -> In l (chain k) /\ cfresh s l id (m l id)) ->
-  let S' := irun auto (mkist s m) (all_levels sync e id ls) in
-  db S' = s /\
-  (forall l, In l (chain k) -> efresh s l id (im S' l id)) /\
-  (forall l, In l done \/ In l ls -> cfresh s l id (im S' l id)).
+(* the level and every level above it are refreshed, provided no other instance of one of those levels sits in
+   the identity map with an outdated value *)
+Theorem refresh_upto : forall auto sync S id k e l e', ireachable auto S -> In (id, k) (born (db S)) ->
+  In e (chain k) -> In l (chain k) -> In e' (chain k) -> entries_fresh S k id ->
+  let S' := fst (istep auto S (refresh_op sync e id l)) in
+  exists ob, snd (istep auto S' (Old (Get e' id))) = RObj ob /\ oid ob = id /\ ocls ob = k /\
+             forall a, In a (chain l) -> oat ob a = val_of (db S) a id.
 Proof.
-  intros auto sync e id k s ls. induction ls as [|a ls IH]; intros m done He Hg Hls Hef Hdone; cbn [all_levels map irun].
-  - split; [reflexivity|]. split; [exact Hef|]. intros l [H|[]]. apply Hdone. exact H.
-  - destruct (Hg (mkist s m) eq_refl) as [ob [Hgo Hk]].
-    assert (Ha : In a (chain k)) by (apply Hls; left; reflexivity).
-    rewrite (istep_refresh auto sync (mkist s m) e id a ob Hgo) by (rewrite Hk; exact Ha). cbn [fst db im]. rewrite Hk.
-    set (m1 := iget s e k id m). set (m2 := refresh_at sync s m1 a id).
-    assert (E1 : forall l, In l (chain k) -> efresh s l id (m1 l id)).
-    { intros l Hl. apply iget_fresh. apply Hef. exact Hl. }
-    assert (E2 : forall l, In l (chain k) -> efresh s l id (m2 l id)).
-    { intros l Hl. unfold m2. destruct sync; cbn [refresh_at].
-      - unfold sync_at. rewrite iupd_same. destruct (cls_eqb l a) eqn:E; [|apply E1; exact Hl].
-        apply cls_eqb_eq in E. subst a. cbn. apply E1. exact Hl.
-      - unfold expire_at. destruct (ci (m1 a id)); [|apply E1; exact Hl].
-        rewrite iupd_same. destruct (cls_eqb l a); [intros v E'; discriminate E'|apply E1; exact Hl]. }
-    assert (C2 : forall l, In l (a :: done) -> In l (chain k) /\ cfresh s l id (m2 l id)).
-    { intros l Hl. assert (Hlc : In l (chain k)) by (destruct Hl as [<-|Hl]; [exact Ha|apply Hdone; exact Hl]).
-      split; [exact Hlc|]. unfold m2. destruct sync; cbn [refresh_at].
-      - unfold sync_at. rewrite iupd_same. destruct (cls_eqb l a) eqn:E; [apply cls_eqb_eq in E; rewrite E; right; reflexivity|].
-        destruct Hl as [<-|Hl]; [rewrite cls_eqb_refl in E; discriminate|].
-        apply iget_fresh; [apply Hef; exact Hlc|apply Hdone; exact Hl].
-      - unfold expire_at. destruct (ci (m1 a id)) eqn:Ca.
-        + rewrite iupd_same. destruct (cls_eqb l a) eqn:E; [left; reflexivity|].
-          destruct Hl as [<-|Hl]; [rewrite cls_eqb_refl in E; discriminate|].
-          apply iget_fresh; [apply Hef; exact Hlc|apply Hdone; exact Hl].
-        + destruct Hl as [<-|Hl]; [left; exact Ca|].
-          apply iget_fresh; [apply Hef; exact Hlc|apply Hdone; exact Hl]. }
-    specialize (IH m2 (a :: done) He Hg (fun l H => Hls l (or_intror H)) E2 C2).
-    cbn zeta in IH. destruct IH as [I1 [I2 I3]]. split; [exact I1|]. split; [exact I2|].
-    intros l [H|[<-|H]]; apply I3; [left; right; exact H|left; left; reflexivity|right; exact H].
-Qed.
-
-(* sync() -- or expire() -- on the instance of EVERY level refreshes everything, provided no other
-   instance of a level of the row sits in the identity map with an outdated value *)
-Theorem refresh_every_level : forall auto sync S id k e e', ireachable auto S -> In (id, k) (born (db S)) ->
-  In e (chain k) -> In e' (chain k) -> entries_fresh S k id ->
-  let S' := irun auto S (all_levels sync e id (chain k)) in
-  db S' = db S /\ snd (istep auto S' (Old (Get e' id))) = RObj (mkobj id k (stored (db S) k id)).
-Proof.
-  intros auto sync S id k e e' Hre Hb He He' Hfr S'.
-  destruct (ireach_repr auto S Hre) as [os Hr].
-  assert (Hg : forall e0, In e0 (chain k) -> forall S0, db S0 = db S -> exists ob, get_obj (db S0) e0 id = inr ob /\ ocls ob = k).
-  { intros e0 He0 S0 H0. rewrite H0. destruct (born_in _ os id k Hr Hb) as [o [Ho [Hid [Hk Hf]]]]. subst id k.
-    exists (obj_of o). split; [|reflexivity]. apply (get_obj_repr _ os e0 (aid o) o Hr Hf). apply memc_In. exact He0. }
-  destruct S as [s m]. cbn [db im] in *.
-  destruct (refresh_levels auto sync e id k s (chain k) m [] He (Hg e He) (fun l H => H)
-              (fun l Hl v E => Hfr l v Hl E) (fun l H => match H with end)) as [D [E C]].
-  fold S' in D, E, C. split; [exact D|].
-  destruct (Hg e' He' S' D) as [ob' [Hg' Hk']].
-  rewrite (istep_get auto S' e' id ob' Hg'). cbn [snd]. rewrite Hk'. unfold iview. cbn [snd]. unfold ivals, stored. do 2 f_equal. apply map_ext_in. intros l Hl.
+  intros auto sync S id k e l e' Hre Hb He Hl He' Hfr S'.
+  destruct (ireach_get auto S id k e Hre Hb He) as [ob [Hg Hk]].
+  destruct (ireach_get auto S id k e' Hre Hb He') as [ob' [Hg' Hk']].
+  assert (HS : S' = mkist (db S) (refresh_at sync (db S) (iget (db S) e k id (im S)) l id)).
+  { unfold S'. rewrite (istep_refresh auto sync S e id l ob Hg); rewrite Hk; [reflexivity|exact Hl]. }
+  assert (Hg2 : get_obj (db S') e' id = inr ob') by (rewrite HS; exact Hg').
+  rewrite (istep_get auto S' e' id ob' Hg2). cbn [snd]. rewrite Hk'.
+  eexists. split; [reflexivity|]. unfold iview. cbn [snd oid ocls]. split; [reflexivity|]. split; [reflexivity|].
+  intros a Ha. assert (Hak : In a (chain k)) by (apply (chain_sub k l a Hl Ha)).
+  rewrite oat_ivals by exact Hak.
   change (load_all (db S') (chain k) id (iget (db S') e' k id (im S'))) with (fst (iview (db S') e' k id (im S'))).
-  rewrite D. apply view_shows; [exact Hl|apply E; exact Hl|apply C; right; exact Hl].
+  rewrite HS. cbn [db im].
+  assert (E1 : efresh (db S) a id (iget (db S) e k id (im S) a id)).
+  { apply iget_fresh. intros v E. apply (Hfr a v Hak E). }
+  destruct (refresh_at_fresh sync (db S) (iget (db S) e k id (im S)) l id a Ha E1) as [C2 E2].
+  apply view_shows; assumption.
+Qed.
+
+(* on the object get handed out (the leaf): everything *)
+Theorem refresh_leaf : forall auto sync S id k e e', ireachable auto S -> In (id, k) (born (db S)) ->
+  In e (chain k) -> In e' (chain k) -> entries_fresh S k id ->
+  snd (istep auto (fst (istep auto S (refresh_op sync e id k))) (Old (Get e' id))) = RObj (mkobj id k (stored (db S) k id)).
+Proof.
+  intros auto sync S id k e e' Hre Hb He He' Hfr.
+  assert (Hkk : In k (chain k)) by (apply memc_In; apply memc_self).
+  destruct (ireach_get auto S id k e Hre Hb He) as [ob [Hg Hk]].
+  destruct (ireach_get auto S id k e' Hre Hb He') as [ob' [Hg' Hk']].
+  set (S' := fst (istep auto S (refresh_op sync e id k))).
+  assert (HS : S' = mkist (db S) (refresh_at sync (db S) (iget (db S) e k id (im S)) k id)).
+  { unfold S'. rewrite (istep_refresh auto sync S e id k ob Hg); rewrite Hk; [reflexivity|exact Hkk]. }
+  assert (Hg2 : get_obj (db S') e' id = inr ob') by (rewrite HS; exact Hg').
+  rewrite (istep_get auto S' e' id ob' Hg2). cbn [snd]. rewrite Hk'. unfold iview. cbn [snd].
+  unfold ivals, stored. do 2 f_equal. apply map_ext_in. intros a Ha.
+  change (load_all (db S') (chain k) id (iget (db S') e' k id (im S'))) with (fst (iview (db S') e' k id (im S'))).
+  rewrite HS. cbn [db im].
+  assert (E1 : efresh (db S) a id (iget (db S) e k id (im S) a id)).
+  { apply iget_fresh. intros v E. apply (Hfr a v Ha E). }
+  destruct (refresh_at_fresh sync (db S) (iget (db S) e k id (im S)) k id a Ha E1) as [C2 E2].
+  apply view_shows; assumption.
 Qed.
 
 Theorem inst_extends_old : forall auto ops,
@@ -376,43 +407,40 @@ Proof. intros. split; [apply irun_old|apply iclean_old]. Qed.
 (* ------------------------------------------------------------------ witnesses *)
 Definition c111 : iop := Old (Create KC (mkargs (Int 1) (Int 1) (Int 1) Omit) false).
 
-(* sync() / expire() of the child after an UPDATE of the root's table behind the ORM: the inherited attribute keeps the old value *)
+(* the former witness of the finding fixed by 47d20cb: sync() / expire() of the child after an UPDATE of the root's
+   table behind the ORM now shows the stored value *)
 Definition w_skip : list iop := [c111; RawSet KA 1 (Some 5)].
-Theorem refresh_child_refuted : forall sync, exists S,
-  ireachable true S /\ In (1, KC) (born (db S)) /\
-  snd (istep true (fst (istep true S (refresh_op sync KC 1 KC))) (Old (Get KC 1))) = RObj (mkobj 1 KC [Some 1; Some 1; Some 1]) /\
-  stored (db S) KC 1 = [Some 5; Some 1; Some 1].
-Proof.
-  intro sync. exists (irun true iinit w_skip). split; [exists w_skip; split; [vm_compute|]; reflexivity|].
-  split; [left; reflexivity|]. destruct sync; vm_compute; split; reflexivity.
-Qed.
+Lemma w_skip_now : forall sync,
+  snd (istep true (fst (istep true (irun true iinit w_skip) (refresh_op sync KC 1 KC))) (Old (Get KC 1))) = RObj (mkobj 1 KC [Some 5; Some 1; Some 1]).
+Proof. intro sync. destruct sync; vm_compute; reflexivity. Qed.
 
-(* no write behind the ORM at all: expire() of the middle instance, a get through the root (a twin of the middle instance
-   enters the identity map), an assignment through the leaf, expire() of the leaf: the new leaf adopts the twin *)
-Definition w_twin : list iop :=
-  [c111; Expire KC 1 KB; Old (Get KA 1); Old (SetAttr KC 1 KB (Int 17)); Expire KC 1 KC].
-Theorem twin_refuted : exists ops,
-  forallb no_raw ops = true /\ iclean true iinit ops = true /\
-  let S := irun true iinit ops in
-  In (1, KC) (born (db S)) /\
-  snd (istep true S (Old (Get KC 1))) = RObj (mkobj 1 KC [Some 1; Some 1; Some 1]) /\
-  stored (db S) KC 1 = [Some 1; Some 17; Some 1].
-Proof. exists w_twin. vm_compute. repeat split. left. reflexivity. Qed.
-
-(* expire() on every level does not refresh when a twin sits in the identity map: the expire() of an instance that is
-   expired already leaves the identity map alone *)
-Definition w_twin2 : list iop := [c111; Expire KC 1 KA; Sync KA 1 KC; RawSet KA 1 (Some 5)].
-Theorem refresh_every_level_refuted : exists S,
+(* expire() of the leaf (hence of every level) does not refresh when a twin sits in the identity map: the expire() of an
+   instance that is expired already leaves the identity map alone *)
+(* expire() of the root's instance; a get through the root that reads nothing (a twin of the root's instance enters the
+   identity map, the chain instance stays expired); UPDATE behind the ORM *)
+Definition w_twin2 : list iop := [c111; Expire KC 1 KA; SyncUpdate KA 1 KC; RawSet KA 1 (Some 5)].
+Theorem refresh_unguarded_refuted : exists S,
   ireachable true S /\ In (1, KC) (born (db S)) /\
-  let S' := irun true S (all_levels false KC 1 (chain KC)) in
-  snd (istep true S' (Old (Get KC 1))) = RObj (mkobj 1 KC [Some 1; Some 1; Some 1]) /\
+  snd (istep true (fst (istep true S (refresh_op false KC 1 KC))) (Old (Get KC 1))) = RObj (mkobj 1 KC [Some 1; Some 1; Some 1]) /\
   stored (db S) KC 1 = [Some 5; Some 1; Some 1].
 Proof.
   exists (irun true iinit w_twin2). split; [exists w_twin2; split; [vm_compute|]; reflexivity|].
   split; [left; reflexivity|]. vm_compute. split; reflexivity.
 Qed.
+(* sync()/expire() of an ancestor's instance leaves the levels below it alone *)
+Theorem refresh_below_refuted : forall sync, exists S,
+  ireachable true S /\ In (1, KC) (born (db S)) /\ entries_fresh S KC 1 /\
+  snd (istep true (fst (istep true S (refresh_op sync KC 1 KB))) (Old (Get KC 1))) = RObj (mkobj 1 KC [Some 5; Some 6; Some 1]) /\
+  stored (db S) KC 1 = [Some 5; Some 6; Some 7].
+Proof.
+  intro sync. set (w := [c111; RawSet KA 1 (Some 5); RawSet KB 1 (Some 6); RawSet KC 1 (Some 7)]).
+  exists (irun true iinit w). split; [exists w; split; [vm_compute|]; reflexivity|].
+  split; [left; reflexivity|]. split.
+  - intros l v Hl E. cbn in Hl. destruct Hl as [<-|[<-|[<-|[]]]]; vm_compute in E; discriminate E.
+  - destruct sync; vm_compute; split; reflexivity.
+Qed.
 
-(* a state meeting every hypothesis of refresh_every_level, with all three stored values changed behind the ORM *)
+(* a state meeting every hypothesis of refresh_leaf, with all three stored values changed behind the ORM *)
 Definition w_raw3 : list iop := [c111; RawSet KA 1 (Some 5); RawSet KB 1 (Some 6); RawSet KC 1 (Some 7)].
 Lemma w_raw3_ok : ireachable true (irun true iinit w_raw3) /\ In (1, KC) (born (db (irun true iinit w_raw3))) /\
   entries_fresh (irun true iinit w_raw3) KC 1.
